@@ -369,10 +369,15 @@ impl InnerInMemory {
                 Some(rr_set) if rr_set.record_type() == RecordType::CNAME => chain.push(rr_set),
                 // The target is at or below a zone cut: the lookup returned the delegation's NS
                 // RRset, which is not data of this zone and not an answer to the query.
+                // Only the NS RRset of the zone apex (where the SOA is) can be the answer to an NS
+                // query that arrives there through the chain.
                 Some(rr_set)
                     if rr_set.record_type() == RecordType::NS
-                        && query_type != RecordType::NS
-                        && query_type != RecordType::ANY =>
+                        && (query_type != RecordType::NS
+                            || !self.records.contains_key(&RrKey::new(
+                                LowerName::from(rr_set.name()),
+                                RecordType::SOA,
+                            ))) =>
                 {
                     break;
                 }
